@@ -1,291 +1,13 @@
-import Bardolph.Proofs.SimStmts
+import Bardolph.Proofs.SimFrame
 /-!
-Loops for the simulation theorem C01: counting (`repeat n`), the loop frame, the layout of an
-assembled loop, and the iteration lemmas for `repeat while` / `repeat` / `repeat n`.
+Loops for the simulation theorem C01: the layout of an assembled loop, and the iteration lemmas
+for `repeat while` / `repeat` / `repeat n` and the index-variable forms.
 -/
 namespace Bardolph
 namespace Sim
 open Vm VmSteps Sem Gen
 
-/-! ## counting -/
-
-/-- number of passes of `repeat n`: as long as the remaining count is positive
-(`Sem.passCount`) -/
-def passes (n : Rat) : Nat := if n ≤ 0 then 0 else n.ceil.toNat
-
-theorem passCount_eq (n : Rat) : passCount n = passes n := rfl
-
-theorem passes_nonpos (q : Rat) (h : ¬ 0 < q) : passes q = 0 := by
-  have : q ≤ 0 := Rat.not_lt.mp h
-  simp [passes, this]
-
-theorem passes_pos (q : Rat) (h : 0 < q) : passes q = passes (q - 1) + 1 := by
-  have hq : ¬ q ≤ 0 := Rat.not_le.mpr h
-  have hc : 0 < q.ceil := by
-    have := (Rat.lt_ceil_iff (x := q) (y := 0)).2 (by simpa using h)
-    exact this
-  simp only [passes, hq, if_false, Rat.ceil_sub_one]
-  by_cases h1 : q - 1 ≤ 0
-  · simp only [h1, if_true]
-    have : q.ceil ≤ 1 := Rat.ceil_le_iff.2 (by
-      have : q ≤ 1 := by grind
-      simpa using this)
-    omega
-  · simp only [h1, if_false]
-    omega
-
-theorem tri_gt (q : Rat) :
-    ((if q < 0 then Ordering.lt else if q == 0 then .eq else .gt) == .gt) = decide (0 < q) := by
-  by_cases hlt : q < 0
-  · have : ¬ 0 < q := by grind
-    simp [hlt, this]
-  · by_cases heq : q = 0
-    · subst heq; simp
-    · have : 0 < q := by grind
-      simp [hlt, heq, this]
-
-/-- the test `counter > 0` on a numeric counter -/
-theorem cmp_gt_zero (cnt : Val) (q : Rat) (fl : Bool) (h : cnt.asNum = some (q, fl)) :
-    binVal .gt cnt (.int 0) = some (.bool (decide (0 < q))) := by
-  cases cnt with
-  | int i =>
-    simp only [Val.asNum, Option.some.injEq, Prod.mk.injEq] at h
-    obtain ⟨rfl, rfl⟩ := h
-    simp only [binVal, binOp, Val.cmp, Val.asNum]
-    rw [show ((0 : Int) : Rat) = 0 from rfl, tri_gt]
-  | num r =>
-    simp only [Val.asNum, Option.some.injEq, Prod.mk.injEq] at h
-    obtain ⟨rfl, rfl⟩ := h
-    simp only [binVal, binOp, Val.cmp, Val.asNum]
-    rw [show ((0 : Int) : Rat) = 0 from rfl, tri_gt]
-  | bool b =>
-    simp only [Val.asNum, Option.some.injEq, Prod.mk.injEq] at h
-    obtain ⟨rfl, rfl⟩ := h
-    simp only [binVal, binOp, Val.cmp, Val.asNum]
-    rw [show ((0 : Int) : Rat) = 0 from rfl, tri_gt]
-  | _ => simp [Val.asNum] at h
-
-/-- `counter - 1` on a numeric counter is the numeric counter one less -/
-theorem sub_one_num (cnt : Val) (q : Rat) (fl : Bool) (h : cnt.asNum = some (q, fl)) :
-    ∃ c' fl', binVal .sub cnt (.int 1) = some c' ∧ c'.asNum = some (q - 1, fl') := by
-  have h1 : (Val.int 1).asNum = some (1, false) := by simp [Val.asNum]
-  simp only [binVal, binOp, Val.sub, h, h1, Bool.or_false]
-  cases cnt with
-  | int i =>
-    simp only [Val.asNum, Option.some.injEq, Prod.mk.injEq] at h
-    obtain ⟨rfl, rfl⟩ := h
-    refine ⟨_, false, rfl, ?_⟩
-    have : ((i : Rat) - 1) = ((i - 1 : Int) : Rat) := by simp [Rat.intCast_sub]
-    simp only [Val.mkNum, Bool.false_eq_true, if_false, Val.asNum, this, Rat.num_intCast]
-  | num r =>
-    simp only [Val.asNum, Option.some.injEq, Prod.mk.injEq] at h
-    obtain ⟨rfl, rfl⟩ := h
-    exact ⟨_, true, rfl, by simp [Val.mkNum, Val.asNum]⟩
-  | bool b =>
-    simp only [Val.asNum, Option.some.injEq, Prod.mk.injEq] at h
-    obtain ⟨rfl, rfl⟩ := h
-    refine ⟨_, false, rfl, ?_⟩
-    cases b
-    · have : ((0 : Rat) - 1) = ((-1 : Int) : Rat) := by decide +kernel
-      simp only [Bool.false_eq_true, if_false, Val.mkNum, Val.asNum, this, Rat.num_intCast]
-    · have : ((1 : Rat) - 1) = ((0 : Int) : Rat) := by decide +kernel
-      simp only [if_true, Val.mkNum, Bool.false_eq_true, if_false, Val.asNum, this, Rat.num_intCast]
-  | _ => simp [Val.asNum] at h
-
-
-/-! ## loop frames -/
-
 variable {img : Image} {K : Ctx} {stk : List Frame} {un : List Val} {σ : S} {s : State} {pc : Nat}
-
-def putVar (vars : List (LoopVar × Val)) (l : LoopVar) (v : Val) : List (LoopVar × Val) :=
-  if vars.any (·.1 == l) then vars.map fun (k, x) => if k == l then (k, v) else (k, x)
-  else vars ++ [(l, v)]
-
-def getVar (vars : List (LoopVar × Val)) (l : LoopVar) : Val :=
-  ((vars.find? (·.1 == l)).map (·.2)).getD .none
-
-theorem getVar_map (vars : List (LoopVar × Val)) (l : LoopVar) (v : Val)
-    (h : vars.any (·.1 == l) = true) :
-    getVar (vars.map fun (k, x) => if k == l then (k, v) else (k, x)) l = v := by
-  induction vars with
-  | nil => simp at h
-  | cons p rest ih =>
-    obtain ⟨k, x⟩ := p
-    by_cases hk : k = l
-    · subst hk
-      simp [getVar]
-    · have hk' : (k == l) = false := by simpa using hk
-      have h' : rest.any (·.1 == l) = true := by simpa [hk'] using h
-      have := ih h'
-      unfold getVar at this ⊢
-      rw [List.map_cons]
-      simp only [hk', Bool.false_eq_true, if_false]
-      rw [List.find?_cons]
-      simp only [hk']
-      exact this
-
-theorem getVar_append (vars : List (LoopVar × Val)) (l : LoopVar) (v : Val)
-    (h : vars.any (·.1 == l) = false) : getVar (vars ++ [(l, v)]) l = v := by
-  induction vars with
-  | nil => simp [getVar]
-  | cons p rest ih =>
-    obtain ⟨k, x⟩ := p
-    simp only [List.any_cons, Bool.or_eq_false_iff] at h
-    have := ih h.2
-    unfold getVar at this ⊢
-    rw [List.cons_append, List.find?_cons]
-    simp only [h.1]
-    exact this
-
-theorem getVar_putVar (vars : List (LoopVar × Val)) (l : LoopVar) (v : Val) :
-    getVar (putVar vars l v) l = v := by
-  unfold putVar
-  split
-  · rename_i h; exact getVar_map vars l v h
-  · rename_i h; exact getVar_append vars l v (Bool.eq_false_iff.mpr h)
-
-theorem SimU.setStack (h : SimU K stk un σ s) (stk' : List Frame) (hl : LoopsOnly stk') :
-    SimU K stk' un σ { s with stack := stk' ++ baseOf K σ.locals } :=
-  ⟨h.running, rfl, hl, h.eval, h.unnamed, h.locals, h.status, h.globals, h.constants,
-    h.lights, h.trace, h.defaultColor, h.matrix, h.draws, h.regs⟩
-
-theorem loopsOnly_cons (vars : List (LoopVar × Val)) (ht : Nat) (hl : LoopsOnly stk) :
-    LoopsOnly (.loop vars ht :: stk) := by
-  intro f hf
-  simp only [List.mem_cons] at hf
-  rcases hf with rfl | hf
-  · rfl
-  · exact hl f hf
-
-/-- `LOOP`: a fresh loop frame -/
-theorem exec_loop (h : SimU K stk un σ s) (hpc : s.pc = (pc : Int)) (hi : img.code[pc]? = some .loop) :
-    Exec img s (At K (pc + 1) (.loop [] 0 :: stk) un σ) := by
-  apply Exec.step h.running
-  apply Exec.done
-  rw [step_eq _ { s with stack := (.loop [] 0 :: stk) ++ baseOf K σ.locals } h.running hpc hi rfl
-    (by simp only [execInstr, h.eval, h.stack, List.length_nil, List.cons_append]) h.running]
-  refine ⟨?_, (h.setStack _ (loopsOnly_cons [] 0 h.loops)).setPc _⟩
-  show s.pc + 1 = _
-  rw [hpc]; omega
-
-/-- `END_LOOP`: the frame is dropped -/
-theorem exec_endLoop (vars : List (LoopVar × Val)) (ht : Nat) (h : SimU K (.loop vars ht :: stk) un σ s)
-    (hpc : s.pc = (pc : Int)) (hi : img.code[pc]? = some .endLoop) :
-    Exec img s (At K (pc + 1) stk un σ) := by
-  apply Exec.step h.running
-  apply Exec.done
-  rw [step_eq _ { s with stack := stk ++ baseOf K σ.locals } h.running hpc hi rfl
-    (by simp only [execInstr, h.stack, h.eval, trimEval, List.drop_nil, List.cons_append]) h.running]
-  refine ⟨?_, (h.setStack _ h.loops.cons.2).setPc _⟩
-  show s.pc + 1 = _
-  rw [hpc]; omega
-
-/-- a store into a loop variable of the innermost loop -/
-theorem putLoopVar_top (vars : List (LoopVar × Val)) (ht : Nat) (h : s.stack = .loop vars ht :: stk)
-    (l : LoopVar) (v : Val) :
-    s.putLoopVar l v = { s with stack := .loop (putVar vars l v) ht :: stk } := by
-  simp only [State.putLoopVar, h, putVar]
-
-theorem getLoopVar_top (vars : List (LoopVar × Val)) (ht : Nat) (h : s.stack = .loop vars ht :: stk)
-    (l : LoopVar) : s.getLoopVar l = getVar vars l := by
-  simp only [State.getLoopVar, h, getVar]
-
-
-theorem Exec.next {img : Image} {s t : State} {P : State → Prop} (hs : s.status = .running)
-    (e : Vm.step img s = t) (h : Exec img t P) : Exec img s P :=
-  Exec.step hs (e ▸ h)
-
-theorem step_popResult (img : Image) (s : State) (pc : Nat) (v : Val) (rest : List Val)
-    (hs : s.status = .running) (hpc : s.pc = (pc : Int))
-    (hi : img.code[pc]? = some (.pop result)) (hev : s.eval = v :: rest) :
-    Vm.step img s = { s with pc := (pc : Int) + 1, eval := rest,
-                             regs := fun r => if r = .result then v else s.regs r } := by
-  rw [step_pop img s pc result v rest hs hpc hi hev]
-  simp only [result, State.put, State.setReg]
-  rw [if_pos (by exact hs)]
-  apply State.ext' <;> first | rfl | (simp [hpc])
-
-theorem step_popCounter (img : Image) (s : State) (pc : Nat) (v : Val) (rest : List Val)
-    (vars : List (LoopVar × Val)) (ht : Nat) (stk : List Frame)
-    (hs : s.status = .running) (hpc : s.pc = (pc : Int))
-    (hi : img.code[pc]? = some (.pop counter)) (hev : s.eval = v :: rest)
-    (hst : s.stack = .loop vars ht :: stk) :
-    Vm.step img s = { s with pc := (pc : Int) + 1, eval := rest,
-                             stack := .loop (putVar vars .counter v) ht :: stk } := by
-  rw [step_pop img s pc counter v rest hs hpc hi hev]
-  have : ({ s with eval := rest } : State).put counter v =
-      { s with eval := rest, stack := .loop (putVar vars .counter v) ht :: stk } := by
-    simp only [counter, State.put]
-    exact putLoopVar_top (s := { s with eval := rest }) vars ht hst _ _
-  rw [this, if_pos (by exact hs)]
-  apply State.ext' <;> first | rfl | (simp [hpc])
-
-/-- `counter > 0` into `result` -/
-theorem exec_counterTest (vars : List (LoopVar × Val)) (ht : Nat) (cnt : Val) (q : Rat) (fl : Bool)
-    (h : SimU K (.loop vars ht :: stk) un σ s) (hpc : s.pc = (pc : Int))
-    (hc : CodeAt img pc counterTest) (hcnt : getVar vars .counter = cnt)
-    (hnum : cnt.asNum = some (q, fl)) :
-    Exec img s (fun t => At K (pc + 4) (.loop vars ht :: stk) un σ t ∧
-      t.regs .result = .bool (decide (0 < q))) := by
-  have hne : cnt = .none → False := by rintro rfl; simp [Val.asNum] at hnum
-  simp only [counterTest, testOp] at hc
-  have hrd : s.read (.loopVar .counter) = cnt := by
-    simp only [State.read, getLoopVar_top vars ht h.stack, hcnt]
-  refine Exec.next h.running (step_push img s pc _ cnt h.running hpc hc.head (by simp) hrd hne) ?_
-  refine Exec.next (by exact h.running)
-    (step_pushq img _ (pc + 1) _ (by exact h.running) rfl hc.tail.head) ?_
-  refine Exec.next (by exact h.running)
-    (step_binop img _ (pc + 1 + 1) .gt cnt (.int 0) _ s.eval (by exact h.running) rfl
-      hc.tail.tail.head rfl (cmp_gt_zero cnt q fl hnum)) ?_
-  refine Exec.next (by exact h.running)
-    (step_popResult img _ (pc + 1 + 1 + 1) _ s.eval (by exact h.running) rfl
-      hc.tail.tail.tail.head rfl) ?_
-  apply Exec.done
-  refine ⟨⟨rfl, ?_⟩, by simp⟩
-  exact ⟨h.running, h.stack, h.loops, h.eval, h.unnamed, h.locals, h.status, h.globals, h.constants,
-    h.lights, h.trace, h.defaultColor, h.matrix, h.draws, fun r hr => by
-      simp only [if_neg hr]; exact h.regs r hr⟩
-
-/-- `counter := counter - 1` -/
-theorem exec_loopPost (vars : List (LoopVar × Val)) (ht : Nat) (cnt c' : Val)
-    (h : SimU K (.loop vars ht :: stk) un σ s) (hpc : s.pc = (pc : Int))
-    (hc : CodeAt img pc (loopPost none)) (hcnt : getVar vars .counter = cnt)
-    (hne : cnt = .none → False) (hsub : binVal .sub cnt (.int 1) = some c') :
-    Exec img s (At K (pc + 4) (.loop (putVar vars .counter c') ht :: stk) un σ) := by
-  simp only [loopPost, List.append_nil] at hc
-  have hrd : s.read (.loopVar .counter) = cnt := by
-    simp only [State.read, getLoopVar_top vars ht h.stack, hcnt]
-  refine Exec.next h.running (step_push img s pc _ cnt h.running hpc hc.head (by simp) hrd hne) ?_
-  refine Exec.next (by exact h.running)
-    (step_pushq img _ (pc + 1) _ (by exact h.running) rfl hc.tail.head) ?_
-  refine Exec.next (by exact h.running)
-    (step_binop img _ (pc + 1 + 1) .sub cnt (.int 1) c' s.eval (by exact h.running) rfl
-      hc.tail.tail.head rfl hsub) ?_
-  refine Exec.next (by exact h.running)
-    (step_popCounter img _ (pc + 1 + 1 + 1) c' s.eval vars ht (stk ++ baseOf K σ.locals)
-      (by exact h.running) rfl hc.tail.tail.tail.head rfl (by exact h.stack)) ?_
-  apply Exec.done
-  refine ⟨rfl, ?_⟩
-  exact ⟨h.running, rfl, loopsOnly_cons _ _ h.loops.cons.2, h.eval, h.unnamed, h.locals, h.status,
-    h.globals, h.constants, h.lights, h.trace, h.defaultColor, h.matrix, h.draws, h.regs⟩
-
-/-- `repeat n`: the count goes into the loop frame -/
-theorem exec_toCounter (v : Rv) (hv : RvOK v) (vars : List (LoopVar × Val)) (ht : Nat)
-    (h : SimU K (.loop vars ht :: stk) un σ s) (hpc : s.pc = (pc : Int))
-    (hc : CodeAt img pc (genRv v (.to counter)))
-    {f : Nat} {x : Val} {σ' : S} (hev : evalRv f v σ = .ok (x, σ')) :
-    σ' = σ ∧ Exec img s (At K (pc + (genRv v (.to counter)).length)
-      (.loop (putVar vars .counter x) ht :: stk) un σ) := by
-  have hput : s.put counter x =
-      { s with stack := (.loop (putVar vars .counter x) ht :: stk) ++ baseOf K σ.locals } := by
-    simp only [counter, State.put]
-    exact putLoopVar_top (stk := stk ++ baseOf K σ.locals) vars ht h.stack _ _
-  obtain ⟨rfl, hrun⟩ := run_genRv v hv counter (by simp [counter]) h hpc hc hev
-    (by rw [hput]; exact h.running)
-  refine ⟨rfl, Exec.of_run _ hrun ⟨rfl, ?_⟩⟩
-  rw [hput]
-  exact (h.setStack _ (loopsOnly_cons _ _ h.loops.cons.2)).setPc _
-
 
 /-! ## the shape of a loop -/
 
@@ -502,28 +224,91 @@ theorem while_step (f : Nat) (ihB : BlockGoal img K f) (ihW : WhileIter img K f)
         (by rw [ht2.1]) (idx hce)
 
 
-/-- `repeat n`: from the test on, with the counter in the loop frame -/
+/-! ### counted passes, with or without an index variable -/
+
+/-- the source-level state after the end of a pass: the increment added to the index variable -/
+def idxNext (ix : Option (String × Val)) (σ : S) : Option S :=
+  match ix with
+  | none => some σ
+  | some (v, incr) => (Vm.binOp .add (σ.lookup v) incr).map fun x => σ.assign v x
+
+theorem stepIdx_cases {ix : Option (String × Val)} {σ2 : S} {Kf : S → Outcome × S} {o : Outcome} {σ' : S}
+    (h : stepIdx ix σ2 Kf = (o, σ')) :
+    (∃ σ3, idxNext ix σ2 = some σ3 ∧ Kf σ3 = (o, σ')) ∨ o = .fault "arithmetic error" := by
+  cases ix with
+  | none => exact Or.inl ⟨σ2, rfl, h⟩
+  | some p =>
+    obtain ⟨v, incr⟩ := p
+    simp only [stepIdx] at h
+    split at h
+    · rename_i x hx
+      exact Or.inl ⟨_, by simp [idxNext, hx], h⟩
+    · simp only [Prod.mk.injEq] at h
+      exact Or.inr h.1.symm
+
+/-- the code at the end of a pass -/
+def postOf (ix : Option (String × Val)) : List Instr := loopPost (ix.map (·.1))
+
+theorem postOf_none : postOf none = loopPost none := rfl
+
+theorem add_some_ne_none {a b d : Val} (h : Val.add a b = some d) : (a = .none → False) ∧ (b = .none → False) := by
+  constructor
+  · rintro rfl; cases b <;> simp [Val.add, Val.asNum] at h
+  · rintro rfl; cases a <;> simp [Val.add, Val.asNum] at h
+
+/-- the end of a pass: the counter goes down by one, the increment is added to the index variable -/
+theorem exec_passEnd {stk : List Frame} {s : State} {pc : Nat} (ix : Option (String × Val))
+    (vars : List (LoopVar × Val)) (ht : Nat) (cnt c1 : Val) (σ2 σ3 : S)
+    (h : Sim K (.loop vars ht :: stk) σ2 s) (hpc : s.pc = (pc : Int)) (hc : CodeAt img pc (postOf ix))
+    (hcnt : getVar vars .counter = cnt) (hne : cnt = .none → False)
+    (hsub : binVal .sub cnt (.int 1) = some c1) (hincr : ∀ p ∈ ix, getVar vars .incr = p.2)
+    (hnext : idxNext ix σ2 = some σ3) :
+    Exec img s (At K (pc + (postOf ix).length) (.loop (putVar vars .counter c1) ht :: stk) [] σ3) := by
+  cases ix with
+  | none =>
+    simp only [idxNext, Option.some.injEq] at hnext
+    subst hnext
+    exact exec_loopPost vars ht cnt c1 h hpc hc hcnt hne hsub
+  | some p =>
+    obtain ⟨v, incr⟩ := p
+    have hi : getVar vars .incr = incr := hincr (v, incr) rfl
+    simp only [idxNext, Option.map_eq_some_iff] at hnext
+    obtain ⟨x, hadd, rfl⟩ := hnext
+    have hc' : CodeAt img pc ([Instr.push (.loopVar .counter), .pushq (.int 1), .op .sub, .pop counter] ++
+        [Instr.push (.var v), .push (.loopVar .incr), .op .add, .pop (.var v)]) := hc
+    have hnn := add_some_ne_none (show Val.add (σ2.lookup v) incr = some x from hadd)
+    refine (exec_group_lv _ _ .sub .counter cnt (.int 1) c1 h hpc hc'.left
+      (pf_lv h _ .counter cnt hcnt hne) (Loops.pfStep_pushq _ _ _) hsub).trans fun t1 ht1 => ?_
+    have hi1 : getVar (putVar vars .counter c1) .incr = incr := by
+      rw [getVar_putVar_other _ _ _ _ (by decide), hi]
+    exact exec_group_var _ _ .add v (σ2.lookup v) incr x ht1.2 ht1.1 hc'.right
+      (pf_var ht1.2 _ v _ rfl hnn.1) (pf_lv ht1.2 _ .incr incr hi1 hnn.2) hadd
+
+/-- a counted loop (`repeat n`, `repeat [n] with v …`): from the test on, with the counter — and
+the increment of the index variable `ix`, if there is one — in the loop frame -/
 def CountIter (img : Image) (K : Ctx) (f : Nat) : Prop :=
-  ∀ (body : Block), FragBlock body →
-  ∀ (σ σ' : S) (o : Outcome) (s : State) (top : Nat) (stk : List Frame)
+  ∀ (body : Block), FragBlock body → ∀ (ix : Option (String × Val))
+    (σ σ' : S) (o : Outcome) (s : State) (top : Nat) (stk : List Frame)
     (vars : List (LoopVar × Val)) (ht : Nat) (cnt : Val) (q : Rat) (fl : Bool) (off : Int),
     Sim K (.loop vars ht :: stk) σ s → s.pc = (top : Int) →
-    getVar vars .counter = cnt → cnt.asNum = some (q, fl) →
-    CodeAt img top (counterTest ++ [.jump .ifFalse (((genBlock body).length + 4 : Nat) + 2)] ++
-      (resolve (genBlock body) (top + 5) ((top + 5 + (genBlock body).length + 4 + 1 : Nat) : Int) ++
-        loopPost none) ++
+    getVar vars .counter = cnt → cnt.asNum = some (q, fl) → (∀ p ∈ ix, getVar vars .incr = p.2) →
+    CodeAt img top (counterTest ++
+      [.jump .ifFalse (((genBlock body).length + (postOf ix).length : Nat) + 2)] ++
+      (resolve (genBlock body) (top + 5)
+        ((top + 5 + (genBlock body).length + (postOf ix).length + 1 : Nat) : Int) ++ postOf ix) ++
       [.jump .always off] ++ [.endLoop]) →
-    ((top + 5 + (genBlock body).length + 4 : Nat) : Int) + off = (top : Int) →
-    execPasses f (List.replicate (passes q) []) none body σ = (o, σ') → (o = .normal ∨ o = .brk) →
-    o = .normal ∧ Exec img s (At K (top + 5 + (genBlock body).length + 4 + 1 + 1) stk [] σ')
+    ((top + 5 + (genBlock body).length + (postOf ix).length : Nat) : Int) + off = (top : Int) →
+    execPasses f (List.replicate (passes q) []) ix body σ = (o, σ') → (o = .normal ∨ o = .brk) →
+    o = .normal ∧
+      Exec img s (At K (top + 5 + (genBlock body).length + (postOf ix).length + 1 + 1) stk [] σ')
 
 theorem count_zero : CountIter img K 0 := by
-  intro body _ σ σ' o s top stk vars ht cnt q fl off _ _ _ _ _ _ h ho
+  intro body _ ix σ σ' o s top stk vars ht cnt q fl off _ _ _ _ _ _ _ h ho
   simp only [execPasses, Prod.mk.injEq] at h
   rcases ho with rfl | rfl <;> simp at h
 
 theorem count_step (f : Nat) (ihB : BlockGoal img K f) (ihC : CountIter img K f) : CountIter img K (f + 1) := by
-  intro body hb σ σ' o s top stk vars ht cnt q fl off sim hpc hcnt hnum hc hoff h ho
+  intro body hb ix σ σ' o s top stk vars ht cnt q fl off sim hpc hcnt hnum hincr hc hoff h ho
   have hct := hc.left.left.left.left
   have hcj := hc.left.left.left.right.head
   have hcb := hc.left.left.right.left
@@ -531,15 +316,14 @@ theorem count_step (f : Nat) (ihB : BlockGoal img K f) (ihC : CountIter img K f)
   have hcjb := hc.left.right.head
   have hce := hc.right.head
   have hlen : counterTest.length = 4 := rfl
-  have hlenp : (loopPost none).length = 4 := rfl
-  simp only [List.length_append, List.length_cons, List.length_nil, resolve_length, hlen, hlenp]
+  simp only [List.length_append, List.length_cons, List.length_nil, resolve_length, hlen]
     at hcj hcb hcp hcjb hce
   have hne : cnt = .none → False := by rintro rfl; simp [Val.asNum] at hnum
   have hex := exec_counterTest vars ht cnt q fl sim hpc hct hcnt hnum
   by_cases hq : 0 < q
   · -- one more pass
     rw [passes_pos q hq, List.replicate_succ, execPasses_succ] at h
-    simp only [List.foldl_nil, stepIdx] at h
+    simp only [List.foldl_nil] at h
     have hjmp : ∀ t0, (At K (top + 4) (.loop vars ht :: stk) [] σ t0 ∧
         t0.regs .result = .bool (decide (0 < q))) →
         Exec img t0 (At K (top + 5) (.loop vars ht :: stk) [] σ) := by
@@ -547,28 +331,32 @@ theorem count_step (f : Nat) (ihB : BlockGoal img K f) (ihC : CountIter img K f)
       exact exec_jump .ifFalse _ _ (by simp) ht0.2 ht0.1 (idx hcj)
         (by simp [hres, hq, Val.truthy]; omega)
     rcases loopBody_cases h ho with ⟨s2, hbody, hrest⟩ | ⟨hbody, rfl⟩
-    · obtain ⟨c1, fl1, hsub1, hc1⟩ := sub_one_num cnt q fl hnum
+    · have hnf : o ≠ .fault "arithmetic error" := by rcases ho with rfl | rfl <;> simp
+      obtain ⟨s3, hnext, hrest⟩ := (stepIdx_cases hrest).resolve_right hnf
+      obtain ⟨c1, fl1, hsub1, hc1⟩ := sub_one_num cnt q fl hnum
       have hbodyEx : ∀ t1, At K (top + 5) (.loop vars ht :: stk) [] σ t1 →
           Exec img t1 (At K (top + 5 + (genBlock body).length) (.loop vars ht :: stk) [] s2) := by
         intro t1 ht1
         exact ihB body hb σ s2 .normal t1 _ _ _ ht1.2 ht1.1 (cat hcb) hbody (Or.inl rfl)
       have hpostEx : ∀ t2, At K (top + 5 + (genBlock body).length) (.loop vars ht :: stk) [] s2 t2 →
-          Exec img t2 (At K (top + 5 + (genBlock body).length + 4)
-            (.loop (putVar vars .counter c1) ht :: stk) [] s2) := by
+          Exec img t2 (At K (top + 5 + (genBlock body).length + (postOf ix).length)
+            (.loop (putVar vars .counter c1) ht :: stk) [] s3) := by
         intro t2 ht2
-        exact exec_loopPost vars ht cnt c1 ht2.2 ht2.1 (cat hcp) hcnt hne hsub1
-      have hback : ∀ t3, At K (top + 5 + (genBlock body).length + 4)
-          (.loop (putVar vars .counter c1) ht :: stk) [] s2 t3 →
-          Exec img t3 (At K top (.loop (putVar vars .counter c1) ht :: stk) [] s2) := by
+        exact exec_passEnd ix vars ht cnt c1 s2 s3 ht2.2 ht2.1 (cat hcp) hcnt hne hsub1 hincr hnext
+      have hback : ∀ t3, At K (top + 5 + (genBlock body).length + (postOf ix).length)
+          (.loop (putVar vars .counter c1) ht :: stk) [] s3 t3 →
+          Exec img t3 (At K top (.loop (putVar vars .counter c1) ht :: stk) [] s3) := by
         intro t3 ht3
         exact exec_jump .always off top (by simp) ht3.2 ht3.1 (idx hcjb) (by simpa using hoff)
-      have hrestEx : ∀ t4, At K top (.loop (putVar vars .counter c1) ht :: stk) [] s2 t4 →
-          o = .normal ∧ Exec img t4 (At K (top + 5 + (genBlock body).length + 4 + 1 + 1) stk [] σ') := by
+      have hrestEx : ∀ t4, At K top (.loop (putVar vars .counter c1) ht :: stk) [] s3 t4 →
+          o = .normal ∧ Exec img t4
+            (At K (top + 5 + (genBlock body).length + (postOf ix).length + 1 + 1) stk [] σ') := by
         intro t4 ht4
-        exact ihC body hb s2 σ' o t4 top stk _ ht c1 (q - 1) fl1 off ht4.2 ht4.1
-          (getVar_putVar vars .counter c1) hc1 hc hoff hrest ho
+        exact ihC body hb ix s3 σ' o t4 top stk _ ht c1 (q - 1) fl1 off ht4.2 ht4.1
+          (getVar_putVar vars .counter c1) hc1
+          (fun p hp => by rw [getVar_putVar_other _ _ _ _ (by decide)]; exact hincr p hp) hc hoff hrest ho
       have hall := (((hex.trans hjmp).trans hbodyEx).trans hpostEx).trans hback
-      obtain ⟨t4, ht4⟩ : ∃ t4, At K top (.loop (putVar vars .counter c1) ht :: stk) [] s2 t4 := by
+      obtain ⟨t4, ht4⟩ : ∃ t4, At K top (.loop (putVar vars .counter c1) ht :: stk) [] s3 t4 := by
         obtain ⟨k, hk⟩ := hall
         exact ⟨_, hk⟩
       exact ⟨(hrestEx t4 ht4).1, hall.trans fun t ht => (hrestEx t ht).2⟩
@@ -582,7 +370,7 @@ theorem count_step (f : Nat) (ihB : BlockGoal img K f) (ihC : CountIter img K f)
     simp only [List.replicate_zero, execPasses, Prod.mk.injEq] at h
     obtain ⟨rfl, rfl⟩ := h
     refine ⟨rfl, hex.trans fun t0 ⟨ht0, hres⟩ => ?_⟩
-    refine (exec_jump .ifFalse _ (top + 5 + (genBlock body).length + 4 + 1) (by simp) ht0.2 ht0.1
+    refine (exec_jump .ifFalse _ (top + 5 + (genBlock body).length + (postOf ix).length + 1) (by simp) ht0.2 ht0.1
       (idx hcj) (by simp [hres, hq, Val.truthy]; omega)).trans fun t1 ht1 => ?_
     exact exec_endLoop vars ht ht1.2 ht1.1 (idx hce)
 
@@ -642,11 +430,70 @@ theorem loop_while (f : Nat) (ihW : WhileIter img K f) (c : Option Rv) (hcnd : C
   rw [ht2.1]; congr 1; omega
 
 
-theorem range_map_nil (k : Nat) :
-    ((List.range k).map fun _ => ([] : List (String × Val))) = List.replicate k [] := by
-  rw [List.map_const', List.length_range]
+/-- the code of a counted loop from its test on, as `CountIter` wants it -/
+theorem counted_rest {pc exit : Nat} (pre : List Instr) (ix : Option (String × Val)) (body : Block)
+    (hc : CodeAt img pc (resolve (assembleLoop pre counterTest [] (genBlock body) (postOf ix)) pc exit)) :
+    img.code[pc]? = some .loop ∧ CodeAt img (pc + 1) pre ∧
+    CodeAt img (pc + 1 + pre.length) (counterTest ++
+      [.jump .ifFalse (((genBlock body).length + (postOf ix).length : Nat) + 2)] ++
+      (resolve (genBlock body) (pc + 1 + pre.length + 5)
+        ((pc + 1 + pre.length + 5 + (genBlock body).length + (postOf ix).length + 1 : Nat) : Int) ++
+          postOf ix) ++
+      [.jump .always (((1 + pre.length : Nat) : Int) -
+        ((1 + pre.length + 4 + 1 + ((genBlock body).length + (postOf ix).length) : Nat) : Int))] ++
+      [.endLoop]) := by
+  rw [resolve_assembleLoop] at hc
+  have hlen : counterTest.length = 4 := rfl
+  simp only [List.nil_append, List.length_nil, Nat.add_zero, Nat.zero_add, hlen] at hc
+  refine ⟨hc.left.left.left.left.left.head, hc.left.left.left.left.left.tail, ?_⟩
+  have e1 : pc + (1 + pre.length + 4 + 1) = pc + 1 + pre.length + 5 := by omega
+  have e2 : pc + (1 + pre.length + 4 + 1 + ((genBlock body).length + (postOf ix).length) + 1) =
+      pc + 1 + pre.length + 5 + (genBlock body).length + (postOf ix).length + 1 := by omega
+  rw [e1, e2] at hc
+  have := hc
+  simp only [List.append_assoc, List.cons_append, List.nil_append] at this ⊢
+  have hh := (CodeAt.right (a := Instr.loop :: pre) this)
+  simp only [List.length_cons] at hh
+  have e3 : pc + (pre.length + 1) = pc + 1 + pre.length := by omega
+  rw [e3] at hh
+  exact hh
 
-/-- `repeat n`: frame, the count into the frame, the passes, frame dropped -/
+/-- **a counted loop**: `LOOP`, the prologue `pre` (which leaves the count — and the increment of
+the index variable `ix` — in the loop frame and the source-level state `σ1`), the passes,
+`END_LOOP` -/
+theorem loop_counted (f : Nat) (ihC : CountIter img K f) (pre : List Instr) (ix : Option (String × Val))
+    (body : Block) (hb : FragBlock body) (k : Nat) (σ σ1 σ' : S) (o : Outcome) (s : State) (pc exit : Nat)
+    (stk : List Frame) (sim : Sim K stk σ s) (hpc : s.pc = (pc : Int))
+    (hc : CodeAt img pc (resolve (assembleLoop pre counterTest [] (genBlock body) (postOf ix)) pc exit))
+    (hpre : CodeAt img (pc + 1) pre → ∀ t, At K (pc + 1) (.loop [] 0 :: stk) [] σ t →
+      Exec img t (fun t' => ∃ vars cnt q fl, At K (pc + 1 + pre.length) (.loop vars 0 :: stk) [] σ1 t' ∧
+        getVar vars .counter = cnt ∧ cnt.asNum = some (q, fl) ∧ (∀ p ∈ ix, getVar vars .incr = p.2) ∧
+        passes q = k))
+    (h : execPasses f (List.replicate k []) ix body σ1 = (o, σ')) (ho : o = .normal ∨ o = .brk) :
+    o = .normal ∧
+      Exec img s (At K (pc + (assembleLoop pre counterTest [] (genBlock body) (postOf ix)).length) stk [] σ') := by
+  obtain ⟨hloop, hcpre, hrest⟩ := counted_rest pre ix body hc
+  rw [assembleLoop_length]
+  have hlen : counterTest.length = 4 := rfl
+  simp only [List.length_nil, Nat.add_zero, Nat.zero_add, hlen]
+  have hl := exec_loop sim hpc hloop
+  have hall := hl.trans (hpre hcpre)
+  have hiter : ∀ t', (∃ vars cnt q fl, At K (pc + 1 + pre.length) (.loop vars 0 :: stk) [] σ1 t' ∧
+        getVar vars .counter = cnt ∧ cnt.asNum = some (q, fl) ∧ (∀ p ∈ ix, getVar vars .incr = p.2) ∧
+        passes q = k) →
+      o = .normal ∧ Exec img t'
+        (At K (pc + 1 + pre.length + 5 + (genBlock body).length + (postOf ix).length + 1 + 1) stk [] σ') := by
+    intro t' ⟨vars, cnt, q, fl, ht', hcnt, hnum, hincr, hk⟩
+    subst hk
+    exact ihC body hb ix σ1 σ' o t' _ stk vars 0 cnt q fl _ ht'.2 ht'.1 hcnt hnum hincr hrest (by omega) h ho
+  obtain ⟨t2, ht2⟩ : ∃ t2, (∃ vars cnt q fl, At K (pc + 1 + pre.length) (.loop vars 0 :: stk) [] σ1 t2 ∧
+        getVar vars .counter = cnt ∧ cnt.asNum = some (q, fl) ∧ (∀ p ∈ ix, getVar vars .incr = p.2) ∧
+        passes q = k) := by
+    obtain ⟨k', hk'⟩ := hall; exact ⟨_, hk'⟩
+  refine ⟨(hiter t2 ht2).1, (hall.trans fun t ht => (hiter t ht).2).mono fun t3 ht3 => ⟨?_, ht3.2⟩⟩
+  rw [ht3.1]; congr 1; omega
+
+/-- `repeat n` -/
 theorem loop_count (f : Nat) (ihC : CountIter img K f) (n : Rv) (hn : RvOK n) (body : Block)
     (hb : FragBlock body) (σ σ' : S) (o : Outcome) (s : State) (pc exit : Nat) (stk : List Frame)
     (sim : Sim K stk σ s) (hpc : s.pc = (pc : Int))
@@ -655,12 +502,6 @@ theorem loop_count (f : Nat) (ihC : CountIter img K f) (n : Rv) (hn : RvOK n) (b
     o = .normal ∧
       Exec img s (At K (pc + (genLoop (.count n) (genBlock body)).length) stk [] σ') := by
   simp only [genLoop] at hc ⊢
-  rw [resolve_assembleLoop] at hc
-  rw [assembleLoop_length]
-  have hlen : counterTest.length = 4 := rfl
-  have hlenp : (loopPost none).length = 4 := rfl
-  simp only [List.nil_append, List.length_nil, Nat.add_zero, Nat.zero_add, hlen, hlenp]
-    at hc ⊢
   simp only [execLoop] at h
   split at h
   · rename_i o' he
@@ -670,60 +511,125 @@ theorem loop_count (f : Nat) (ihC : CountIter img K f) (n : Rv) (hn : RvOK n) (b
   · rename_i x σ1 he
     split at h
     · rename_i q hq
-      obtain ⟨fl, hnum⟩ : ∃ fl, x.asNum = some (q, fl) := by
-        simp only [numToCount, Option.map_eq_some_iff] at hq
-        obtain ⟨⟨q', fl⟩, h1, h2⟩ := hq
-        exact ⟨fl, by rw [h1]; simp at h2; rw [h2]⟩
-      have h' : execPasses f (List.replicate (passes q) []) none body σ1 = (o, σ') := by
-        rw [← passCount_eq]; exact h
-      have hloop := hc.left.left.left.left.left.head
-      have hpre := hc.left.left.left.left.left.tail
-      have hrest : CodeAt img (pc + 1 + (genRv n (.to counter)).length)
-          (counterTest ++ [.jump .ifFalse (((genBlock body).length + 4 : Nat) + 2)] ++
-            (resolve (genBlock body) (pc + 1 + (genRv n (.to counter)).length + 5)
-              ((pc + 1 + (genRv n (.to counter)).length + 5 + (genBlock body).length + 4 + 1 : Nat) : Int) ++
-              loopPost none) ++
-            [.jump .always (((1 + (genRv n (.to counter)).length : Nat) : Int) -
-              ((1 + (genRv n (.to counter)).length + 4 + 1 + ((genBlock body).length + 4) : Nat) : Int))] ++
-            [.endLoop]) := by
-        have h1 := hc.left.left.left.right
-        have h2 := hc.left.left.right
-        have h3 := hc.left.right
-        have h4 := hc.right
-        simp only [List.length_append, List.length_cons, List.length_nil, resolve_length, hlen, hlenp]
-          at h1 h2 h3 h4
-        have e1 : pc + (1 + (genRv n (.to counter)).length + 4 + 1) =
-            pc + 1 + (genRv n (.to counter)).length + 5 := by omega
-        have e2 : pc + (1 + (genRv n (.to counter)).length + 4 + 1 + ((genBlock body).length + 4) + 1) =
-            pc + 1 + (genRv n (.to counter)).length + 5 + (genBlock body).length + 4 + 1 := by omega
-        rw [e1, e2] at hc
-        have := hc
-        simp only [List.append_assoc, List.cons_append, List.nil_append] at this ⊢
-        have hh := (CodeAt.right (a := Instr.loop :: genRv n (.to counter)) this)
-        simp only [List.length_cons] at hh
-        have e3 : pc + ((genRv n (.to counter)).length + 1) = pc + 1 + (genRv n (.to counter)).length := by
-          omega
-        rw [e3] at hh
-        exact hh
-      have hl := exec_loop sim hpc hloop
-      have hcnt := fun t (ht : At K (pc + 1) (.loop [] 0 :: stk) [] σ t) =>
-        exec_toCounter n hn [] 0 ht.2 ht.1 hpre he
-      obtain ⟨t, ht⟩ : ∃ t, At K (pc + 1) (.loop [] 0 :: stk) [] σ t := by
-        obtain ⟨k, hk⟩ := hl; exact ⟨_, hk⟩
-      obtain ⟨rfl, _⟩ := hcnt t ht
-      have hiter := fun t (ht : At K (pc + 1 + (genRv n (.to counter)).length)
-          (.loop (putVar [] .counter x) 0 :: stk) [] σ1 t) =>
-        ihC body hb σ1 σ' o t _ stk _ 0 x q fl _ ht.2 ht.1 (getVar_putVar [] .counter x) hnum hrest
-          (by omega) h' ho
-      have hall := hl.trans fun t ht => (hcnt t ht).2
-      obtain ⟨t2, ht2⟩ : ∃ t2, At K (pc + 1 + (genRv n (.to counter)).length)
-          (.loop (putVar [] .counter x) 0 :: stk) [] σ1 t2 := by
-        obtain ⟨k, hk⟩ := hall; exact ⟨_, hk⟩
-      refine ⟨(hiter t2 ht2).1, (hall.trans fun t ht => (hiter t ht).2).mono fun t3 ht3 => ⟨?_, ht3.2⟩⟩
-      rw [ht3.1]; congr 1; omega
+      obtain ⟨fl, hnum⟩ := numToCount_num hq
+      refine loop_counted f ihC _ none body hb _ σ σ1 σ' o s pc exit stk sim hpc hc ?_ h ho
+      intro hcpre t ht
+      obtain ⟨rfl, hcnt⟩ := exec_toCounter n hn [] 0 ht.2 ht.1 hcpre he
+      exact hcnt.mono fun t' ht' => ⟨_, x, q, fl, ht', getVar_putVar [] .counter x, hnum, by simp, rfl⟩
     · simp only [Prod.mk.injEq] at h
       obtain ⟨rfl, rfl⟩ := h
       rcases ho with h | h <;> simp at h
+
+/-- `repeat with v from a to b` -/
+theorem loop_range (f : Nat) (ihC : CountIter img K f) (v : String) (a b : Rv) (ha : RvOK a) (hbd : RvOK b)
+    (body : Block) (hb : FragBlock body) (σ σ' : S) (o : Outcome) (s : State) (pc exit : Nat)
+    (stk : List Frame) (sim : Sim K stk σ s) (hpc : s.pc = (pc : Int))
+    (hc : CodeAt img pc (resolve (genLoop (.range v a b) (genBlock body)) pc exit))
+    (h : execLoop (f + 1) (.range v a b) body σ = (o, σ')) (ho : o = .normal ∨ o = .brk) :
+    o = .normal ∧
+      Exec img s (At K (pc + (genLoop (.range v a b) (genBlock body)).length) stk [] σ') := by
+  simp only [genLoop] at hc ⊢
+  simp only [execLoop] at h
+  split at h
+  · rename_i o' he
+    simp only [Prod.mk.injEq] at h
+    obtain ⟨rfl, rfl⟩ := h
+    exact (error_excluded ha he ho).elim
+  · rename_i x σ1 hea
+    split at h
+    · rename_i o' he
+      simp only [Prod.mk.injEq] at h
+      obtain ⟨rfl, rfl⟩ := h
+      exact (error_excluded hbd he ho).elim
+    · rename_i y σ2 heb
+      split at h
+      · rename_i p q hp hq
+        refine loop_counted f ihC _ (some (v, if q < p then .int (-1) else .int 1)) body hb _ σ
+          (σ2.assign v x) σ' o s pc exit stk sim hpc hc ?_ h ho
+        intro hcpre t ht
+        simp only [indexVarRange, if_true] at hcpre ⊢
+        obtain ⟨rfl, hex1⟩ := exec_toLoopVar a ha .first [] 0 ht.2 ht.1 hcpre.left.left.left hea
+        refine hex1.trans fun t1 ht1 => ?_
+        obtain ⟨rfl, hex2⟩ := exec_toLoopVar b hbd .last _ 0 ht1.2 ht1.1 hcpre.left.left.right heb
+        refine hex2.trans fun t2 ht2 => ?_
+        have hfirst : getVar (putVar (putVar [] .first x) .last y) .first = x := by
+          rw [getVar_putVar_other _ _ _ _ (by decide), getVar_putVar]
+        have hlast : getVar (putVar (putVar [] .first x) .last y) .last = y := getVar_putVar _ _ _
+        have hm := hcpre.left.right.head
+        simp only [List.length_append] at hm
+        refine (exec_moveLVVar .first v ht2.2 ht2.1 (idx hm)).trans fun t3 ht3 => ?_
+        rw [hfirst] at ht3
+        have hcc := hcpre.right
+        simp only [List.length_append, List.length_cons, List.length_nil] at hcc
+        refine (exec_calcCounter x y p q ht3.2 ht3.1 (cat hcc) hfirst hlast hp hq).mono
+          fun t4 ⟨vars', fl, ht4, hcnt, hinc⟩ => ?_
+        refine ⟨vars', _, _, fl, ⟨?_, ht4.2⟩, rfl, hcnt, ?_, rfl⟩
+        · rw [ht4.1]; simp [calcCounter, testOp, incCounter]; omega
+        · intro p' hp'
+          simp only [Option.mem_def, Option.some.injEq] at hp'
+          subst hp'
+          exact hinc
+      · rename_i hnn
+        simp only [Prod.mk.injEq] at h
+        obtain ⟨rfl, rfl⟩ := h
+        rcases ho with h | h <;> simp at h
+
+/-- the counted forms with a `with` clause: `repeat n with v from a to b`, `repeat n with v cycle [s]` -/
+theorem loop_with (f : Nat) (ihC : CountIter img K f) (n : Rv) (hn : RvOK n) (wc : WithClause)
+    (hw : WithOK wc) (body : Block) (hb : FragBlock body) (σ σ' : S) (o : Outcome) (s : State)
+    (pc exit : Nat) (stk : List Frame) (sim : Sim K stk σ s) (hpc : s.pc = (pc : Int))
+    (hc : CodeAt img pc (resolve (assembleLoop (genRv n (.to counter) ++ withCode wc) counterTest []
+      (genBlock body) (loopPost (some (withVarOf wc)))) pc exit))
+    (h : (match evalRv f n σ with
+        | .error o => (o, σ)
+        | .ok (cnt, s1) =>
+          match numToCount cnt with
+          | none => (.fault "count is not a number", s1)
+          | some q =>
+            match evalWith f wc cnt s1 with
+            | .error o => (o, s1)
+            | .ok (none, s2) => (.fault "arithmetic error", s2)
+            | .ok (some i, s2) =>
+              execPasses f (List.replicate (passCount q) []) (some (withVarOf wc, i)) body s2) = (o, σ'))
+    (ho : o = .normal ∨ o = .brk) :
+    o = .normal ∧
+      Exec img s (At K (pc + (assembleLoop (genRv n (.to counter) ++ withCode wc) counterTest []
+        (genBlock body) (loopPost (some (withVarOf wc)))).length) stk [] σ') := by
+  split at h
+  · rename_i o' he
+    simp only [Prod.mk.injEq] at h
+    obtain ⟨rfl, rfl⟩ := h
+    exact (error_excluded hn he ho).elim
+  · rename_i cnt σ1 he
+    split at h
+    · simp only [Prod.mk.injEq] at h
+      obtain ⟨rfl, rfl⟩ := h
+      rcases ho with h | h <;> simp at h
+    · rename_i q hq
+      obtain ⟨fl, hnum⟩ := numToCount_num hq
+      split at h
+      · rename_i o' hew
+        simp only [Prod.mk.injEq] at h
+        obtain ⟨rfl, rfl⟩ := h
+        have := evalWith_error hw f cnt σ1 _ hew
+        rcases ho with rfl | rfl <;> simp at this
+      · simp only [Prod.mk.injEq] at h
+        obtain ⟨rfl, rfl⟩ := h
+        rcases ho with h | h <;> simp at h
+      · rename_i i σ2 hew
+        refine loop_counted f ihC _ (some (withVarOf wc, i)) body hb _ σ σ2 σ' o s pc exit stk sim hpc hc
+          ?_ h ho
+        intro hcpre t ht
+        obtain ⟨rfl, hcnt⟩ := exec_toCounter n hn [] 0 ht.2 ht.1 hcpre.left he
+        refine hcnt.trans fun t1 ht1 => ?_
+        refine (exec_with wc hw cnt q fl ht1.2 ht1.1 hcpre.right (getVar_putVar [] .counter cnt) hnum hew).mono
+          fun t2 ⟨vars', ht2, hc2, hi2⟩ => ?_
+        refine ⟨vars', cnt, q, fl, ⟨?_, ht2.2⟩, hc2, hnum, ?_, rfl⟩
+        · rw [ht2.1]; simp only [List.length_append]; congr 1; omega
+        · intro p' hp'
+          simp only [Option.mem_def, Option.some.injEq] at hp'
+          subst hp'
+          exact hi2
 
 theorem loop_step (f : Nat) (ihW : WhileIter img K f) (ihC : CountIter img K f) : LoopGoal img K (f + 1) := by
   intro hd body hhd hb σ σ' o s pc exit stk sim hpc hc h ho
@@ -735,6 +641,13 @@ theorem loop_step (f : Nat) (ihW : WhileIter img K f) (ihC : CountIter img K f) 
     exact loop_while f ihW (some c) hhd body hb σ σ' o s pc exit stk sim hpc hc
       (by simpa only [execLoop] using h) ho
   | count n => exact loop_count f ihC n hhd body hb σ σ' o s pc exit stk sim hpc hc h ho
+  | range v a b => exact loop_range f ihC v a b hhd.1 hhd.2 body hb σ σ' o s pc exit stk sim hpc hc h ho
+  | interp n v a b =>
+    exact loop_with f ihC n hhd.1 (.fromTo v a b) hhd.2 body hb σ σ' o s pc exit stk sim hpc hc
+      (by simp only [execLoop] at h; exact h) ho
+  | cycle n v start =>
+    exact loop_with f ihC n hhd.1 (.cycle v start) hhd.2 body hb σ σ' o s pc exit stk sim hpc hc
+      (by simp only [execLoop] at h; exact h) ho
   | _ => exact absurd hhd (by simp [LoopHdrOK])
 
 theorem stmt_repeat (f : Nat) (ihL : LoopGoal img K f) (hd : LoopHdr) (body : Block) (hhd : LoopHdrOK hd)
